@@ -151,6 +151,12 @@ def rewrites(cfg) -> List[Tuple[str, Any]]:
                     d = get_at(c, sp)["after"]
                     d[ik] = d.pop(k)
                 out.append((f"{spath}: after key '{k}' -> {ik}", f3))
+
+                # a numeric delay may also arrive as a float (JSON numbers of some producers, computed values)
+                def f4(c, sp=spath, k=k, ik=ik):
+                    d = get_at(c, sp)["after"]
+                    d[float(ik)] = d.pop(k)
+                out.append((f"{spath}: after key '{k}' -> {float(ik)}", f4))
         kids = [k for k, v in (st.get("states") or {}).items() if not (isinstance(v, dict) and v.get("type") == "history")]
         if st.get("initial") and len(kids) == 1 and st.get("type") != "parallel":
             out.append((f"{spath}: drop 'initial' (single child)", lambda c, sp=spath: get_at(c, sp).pop("initial")))
